@@ -306,6 +306,9 @@ func (x *Exec) ident(env *evalEnv, id *ast.Ident) Val {
 			return x.globalVal(x.st, ob)
 		}
 		if v, ok := x.st.vars[ob]; ok {
+			if x.boxed[ob] {
+				return x.loadCell(x.st, v.S, ob.Type(), id.Pos())
+			}
 			return v
 		}
 		x.fail(id.Pos(), "BINDING: variable %q has no value in the current state (not in scope here)", id.Name)
@@ -377,7 +380,7 @@ func (x *Exec) expr(env *evalEnv, e ast.Expr) Val {
 			x.fail(n.Pos(), "deref of non-pointer")
 		}
 		x.nilCheck(env, n.Pos(), p)
-		return x.loadStruct(x.st, p.S, el, n.Pos())
+		return x.loadCell(x.st, p.S, el, n.Pos())
 	case *ast.CallExpr:
 		rs := x.call(env, n)
 		if len(rs) != 1 {
@@ -488,6 +491,13 @@ func (x *Exec) addrOf(env *evalEnv, n *ast.UnaryExpr) Val {
 			t = types.NewPointer(ct)
 		}
 		return Val{ref, t}
+	case *ast.Ident:
+		if o, ok := x.lookupObj(env, in).(*types.Var); ok && x.boxed[o] {
+			if v, ok := x.st.vars[o]; ok {
+				return Val{v.S, types.NewPointer(o.Type())}
+			}
+		}
+		x.fail(n.Pos(), "UNSUPPORTED address of variable %s", in.Name)
 	default:
 		// &x[i], &x.f ... : snapshot copy into a fresh heap object (see DESIGN: interior pointers)
 		v := x.expr(env, inner)
@@ -946,4 +956,33 @@ func (x *Exec) exprAs(env *evalEnv, e ast.Expr, t types.Type) Val {
 
 func (x *Exec) mapStore(m Val, k, v Val) Val {
 	return Val{x.ctx.mkMap(m.Ty, fmt.Sprintf("(store %s %s true)", x.ctx.mpDom(m), k.S), fmt.Sprintf("(store %s %s %s)", x.ctx.mpVal(m), k.S, v.S)), m.Ty}
+}
+
+// cells: storage for address-taken locals and pointers to non-struct values
+func (x *Exec) cellField(t types.Type) *types.Var {
+	k := x.ctx.Sort(t)
+	if f, ok := x.v.cells[k]; ok {
+		return f
+	}
+	f := types.NewField(token.NoPos, nil, "cell_"+mangle(k), t, false)
+	x.v.cells[k] = f
+	x.v.fieldOwner[f] = "cell"
+	return f
+}
+
+func (x *Exec) loadCell(s *State, ref string, t types.Type, pos token.Pos) Val {
+	if _, ok := structOf(t); ok {
+		return x.loadStruct(s, ref, t, pos)
+	}
+	f := x.cellField(t)
+	return Val{fmt.Sprintf("(select %s %s)", x.heapOf(s, f), ref), t}
+}
+
+func (x *Exec) storeCell(ref string, v Val, t types.Type) {
+	if st, ok := structOf(t); ok {
+		x.storeStruct(ref, Val{v.S, t}, st)
+		return
+	}
+	f := x.cellField(t)
+	x.st.heap[f] = fmt.Sprintf("(store %s %s %s)", x.heapOf(x.st, f), ref, v.S)
 }
